@@ -239,6 +239,11 @@ fn main() {
         }
     };
     run_space(&mut ctx, "short", &short, if t { 7 } else { 6 }, &probes, 0);
+    // multi-byte characters that share their leading byte(s): common prefixes ending inside a character
+    let utf8: Vec<&str> = vec!["", "a", "é", "è", "éa", "一", "丁", "😀", "😁", "😀a", "caf\u{e8}", "caf\u{e9}"];
+    let mut probes_u: Vec<String> = utf8.iter().map(|s| s.to_string()).collect();
+    probes_u.extend(["ê", "\u{c0}", "丂", "😂", "caf", "cafe", "\u{10FFFF}"].iter().map(|s| s.to_string()));
+    run_space(&mut ctx, "utf8", &utf8, if t { 5 } else { 4 }, &probes_u, 0);
     let mut sl: Vec<&str> = short.clone();
     sl.extend(long.iter());
     run_space(&mut ctx, "short+long", &sl, 3, &probes, short.len());
